@@ -1,4 +1,4 @@
-import Skv.Lemmas.TxnIter
+import Skv.Lemmas.TxnIterTurn
 /-!
 # C09 — range cursors enumerate exactly the live keys, in order, in both directions
 
@@ -9,8 +9,11 @@ key `≥ X` that is *live* in the overlay of write set `W` on the snapshot's liv
 
 Proved (unbounded: all sorted key lists, all tombstone patterns): the forward positioning loop,
 hence `seek_first` and `seek(target)`, land on exactly that key in a state satisfying the forward
-invariant `FwdState`.  `next` / `prev` / `seek_last` (mirror loop and the direction-change prologue)
-are not proved yet: they are validated by the exhaustive-program correspondence run (partial).
+invariant `FwdState`; the mirror loop, hence `seek_last`, lands on the greatest live key below a bound
+(`BwdState`, `GreatestLT`); `next` and `prev` from either kind of state — including the direction-change
+prologue of the `fix:` commit — land on the least live key above / the greatest live key below the
+current one; and (`C09_cursor_trace`) every sequence of cursor calls reports, call after call, exactly
+the keys the specification names.
 The snapshot side is assumed to be a correct cursor over the live keys of the snapshot; the
 correspondence run drives the real `SnapshotIterator` / `KMergeIterator` / table and memtable cursors
 underneath and would expose a deviation as implementation ≠ model.
@@ -92,3 +95,330 @@ theorem C09_position_to_min (S : List Nat) (W : List (Nat × Bool)) (hS : Sorted
     (∃ K, FwdState S W (TI.posMin fuel t) K ∧ LeastGE S W X (some K)) ∨
     ((TI.posMin fuel t).cur = .none ∧ LeastGE S W X none) :=
   posMin_spec S W hS hW fuel t X h1 h2 h3 h4 h5 h6
+
+
+/-! ## the backward half, the steps, and whole call sequences -/
+
+/-- the cursor is positioned on live key `K`, having last moved forward or backward -/
+def Positioned (S : List Nat) (W : List (Nat × Bool)) (t : TI) (K : Nat) : Prop :=
+  FwdState S W t K ∨ BwdState S W t K
+
+theorem Positioned.key {S W t K} (h : Positioned S W t K) : t.key = some K := by
+  rcases h with h | h
+  · exact h.key
+  · exact h.key
+
+/-- **`next`** from a cursor on `K` — whichever direction it last moved in — lands on the least live
+key above `K` (or reports exhaustion when there is none). -/
+theorem C09_next (S : List Nat) (W : List (Nat × Bool)) (hS : SortedBy id S) (hW : SortedBy Prod.fst W)
+    (t : TI) (K : Nat) (h : Positioned S W t K) :
+    (∃ K', FwdState S W t.next K' ∧ LeastGE S W (K + 1) (some K')) ∨
+    (t.next.cur = .none ∧ LeastGE S W (K + 1) none) := by
+  rcases h with h | h
+  · have : t.next = t.stepFwd := by simp [TI.next, h.dir]
+    rw [this]
+    exact stepFwd_spec S W hS hW t K h.mid
+  · have : t.next = t.turnFwd.stepFwd := by simp [TI.next, h.dir]
+    rw [this]
+    exact stepFwd_spec S W hS hW _ K (turnFwd_spec S W hS hW t K h)
+
+/-- **`prev`** from a cursor on `K` lands on the greatest live key below `K` (or reports exhaustion). -/
+theorem C09_prev (S : List Nat) (W : List (Nat × Bool)) (hS : SortedBy id S) (hW : SortedBy Prod.fst W)
+    (t : TI) (K : Nat) (h : Positioned S W t K) :
+    (∃ K', BwdState S W t.prev K' ∧ GreatestLT S W K (some K')) ∨
+    (t.prev.cur = .none ∧ GreatestLT S W K none) := by
+  rcases h with h | h
+  · have : t.prev = t.turnBwd.stepBwd := by simp [TI.prev, h.dir]
+    rw [this]
+    exact stepBwd_spec S W hS hW _ K (turnBwd_spec S W hS hW t K h)
+  · have : t.prev = t.stepBwd := by simp [TI.prev, h.dir]
+    rw [this]
+    exact stepBwd_spec S W hS hW t K h.mid
+
+/-- **`seek_last`** lands on the greatest live key below any bound `Y` that exceeds every stored key. -/
+theorem C09_seek_last (S : List Nat) (W : List (Nat × Bool)) (hS : SortedBy id S) (hW : SortedBy Prod.fst W)
+    (t : TI) (hts : t.snap.xs = S) (htw : t.ws.xs = W) (Y : Nat)
+    (hYs : ∀ k ∈ S, k < Y) (hYw : ∀ e ∈ W, e.1 < Y) :
+    (∃ K, BwdState S W t.seekLast K ∧ GreatestLT S W Y (some K)) ∨
+    (t.seekLast.cur = .none ∧ GreatestLT S W Y none) := by
+  unfold TI.seekLast
+  have hw : BSplit Prod.fst W Y (Cur.last t.ws).pos := by
+    have := FSplit_none_last (key := Prod.fst) (xs := W) (X := Y) t.ws.pos hYw
+    rw [← htw] at this ⊢
+    exact this
+  apply posMax_spec S W hS hW
+  · exact hts
+  · exact htw
+  · rfl
+  · have := FSplit_none_last (key := id) (xs := S) (X := Y) t.snap.pos hYs
+    rw [← hts] at this ⊢
+    exact this
+  · exact hw
+  · have := wsBefore_le (Cur.last t.ws) hw
+    simp only [TI.fuel, htw]
+    exact Nat.lt_succ_of_le this
+
+/-! ### whole call sequences -/
+
+inductive COp | seekFirst | seekLast | seek (k : Nat) | next | prev
+
+def TI.apply (t : TI) : COp → TI
+  | .seekFirst => t.seekFirst
+  | .seekLast => t.seekLast
+  | .seek k => t.seek k
+  | .next => t.next
+  | .prev => t.prev
+
+/-- the keys reported after each call -/
+def TI.runKeys (t : TI) : List COp → List (Option Nat)
+  | [] => []
+  | op :: ops => (t.apply op).key :: (t.apply op).runKeys ops
+
+/-- `r` is the greatest live key (`none`: nothing is live) -/
+def GreatestLive (S : List Nat) (W : List (Nat × Bool)) : Option Nat → Prop
+  | none => ∀ k, ¬ Live S W k
+  | some K => Live S W K ∧ ∀ k, Live S W k → k ≤ K
+
+/-- what one call must report.  `st`: `some p` = the cursor is known to be on `p` (`none` = exhausted);
+`none` = not tracked (after `next`/`prev` on an exhausted cursor, which the API does not define). -/
+def StepOK (S : List Nat) (W : List (Nat × Bool)) (st : Option (Option Nat)) (op : COp) (r : Option Nat) : Prop :=
+  match op, st with
+  | .seekFirst, _ => LeastGE S W 0 r
+  | .seek k, _ => LeastGE S W k r
+  | .seekLast, _ => GreatestLive S W r
+  | .next, some (some K) => LeastGE S W (K + 1) r
+  | .prev, some (some K) => GreatestLT S W K r
+  | _, _ => True
+
+def nextSt (st : Option (Option Nat)) (op : COp) (r : Option Nat) : Option (Option Nat) :=
+  match op, st with
+  | .seekFirst, _ | .seek _, _ | .seekLast, _ => some r
+  | _, some (some _) => some r
+  | _, _ => none
+
+def TraceOK (S : List Nat) (W : List (Nat × Bool)) : Option (Option Nat) → List COp → List (Option Nat) → Prop
+  | _, [], [] => True
+  | st, op :: ops, r :: rs => StepOK S W st op r ∧ TraceOK S W (nextSt st op r) ops rs
+  | _, _, _ => False
+
+def bound (l : List Nat) : Nat := l.foldr max 0
+
+theorem le_bound {l : List Nat} {a : Nat} (h : a ∈ l) : a ≤ bound l := by
+  induction l with
+  | nil => cases h
+  | cons x xs ih =>
+    simp only [bound, List.foldr] at ih ⊢
+    rcases List.mem_cons.mp h with rfl | h
+    · exact Nat.le_max_left _ _
+    · exact Nat.le_trans (ih h) (Nat.le_max_right _ _)
+
+theorem GreatestLT_top {S : List Nat} {W : List (Nat × Bool)} {Y : Nat} {r : Option Nat}
+    (hYs : ∀ k ∈ S, k < Y) (hYw : ∀ e ∈ W, e.1 < Y) (h : GreatestLT S W Y r) : GreatestLive S W r := by
+  have hl : ∀ k, Live S W k → k < Y := by
+    intro k hk
+    rcases hk with ⟨hk, _⟩ | hk
+    · exact hYs k hk
+    · exact hYw (k, false) hk
+  cases r with
+  | none => intro k hk; have := h k hk; have := hl k hk; omega
+  | some K => exact ⟨h.1, fun k hk => h.2.2 k hk (hl k hk)⟩
+
+theorem posMin_xs : ∀ (f : Nat) (t : TI), (TI.posMin f t).snap.xs = t.snap.xs ∧ (TI.posMin f t).ws.xs = t.ws.xs := by
+  intro f
+  induction f with
+  | zero => intro t; exact ⟨rfl, rfl⟩
+  | succ f ih =>
+    intro t
+    unfold TI.posMin
+    split
+    · exact ⟨rfl, rfl⟩
+    · exact ⟨rfl, rfl⟩
+    · split
+      · have := ih { t with ws := t.ws.next }; simpa [Cur.next_xs] using this
+      · exact ⟨rfl, rfl⟩
+    · split
+      · exact ⟨rfl, rfl⟩
+      · split
+        · split
+          · have := ih { t with ws := t.ws.next }; simpa [Cur.next_xs] using this
+          · exact ⟨rfl, rfl⟩
+        · split
+          · have := ih { t with snap := t.snap.next, ws := t.ws.next }; simpa [Cur.next_xs] using this
+          · exact ⟨rfl, rfl⟩
+
+theorem posMax_xs : ∀ (f : Nat) (t : TI), (TI.posMax f t).snap.xs = t.snap.xs ∧ (TI.posMax f t).ws.xs = t.ws.xs := by
+  intro f
+  induction f with
+  | zero => intro t; exact ⟨rfl, rfl⟩
+  | succ f ih =>
+    intro t
+    unfold TI.posMax
+    split
+    · exact ⟨rfl, rfl⟩
+    · exact ⟨rfl, rfl⟩
+    · split
+      · have := ih { t with ws := t.ws.prev }; simpa [Cur.prev_xs] using this
+      · exact ⟨rfl, rfl⟩
+    · split
+      · exact ⟨rfl, rfl⟩
+      · split
+        · split
+          · have := ih { t with ws := t.ws.prev }; simpa [Cur.prev_xs] using this
+          · exact ⟨rfl, rfl⟩
+        · split
+          · have := ih { t with snap := t.snap.prev, ws := t.ws.prev }; simpa [Cur.prev_xs] using this
+          · exact ⟨rfl, rfl⟩
+
+theorem eqCheck_xs (t : TI) : t.eqCheck.snap.xs = t.snap.xs ∧ t.eqCheck.ws.xs = t.ws.xs := by
+  unfold TI.eqCheck; split <;> exact ⟨rfl, rfl⟩
+
+theorem turnFwd_xs (t : TI) : t.turnFwd.snap.xs = t.snap.xs ∧ t.turnFwd.ws.xs = t.ws.xs := by
+  unfold TI.turnFwd
+  simp only []
+  refine ⟨?_, ?_⟩
+  · rw [(eqCheck_xs _).1]; repeat' split
+    all_goals simp [Cur.next_xs, Cur.first_xs]
+  · rw [(eqCheck_xs _).2]; repeat' split
+    all_goals simp [Cur.next_xs, Cur.first_xs]
+
+theorem turnBwd_xs (t : TI) : t.turnBwd.snap.xs = t.snap.xs ∧ t.turnBwd.ws.xs = t.ws.xs := by
+  unfold TI.turnBwd
+  simp only []
+  refine ⟨?_, ?_⟩
+  · rw [(eqCheck_xs _).1]; repeat' split
+    all_goals simp [Cur.prev_xs, Cur.last_xs]
+  · rw [(eqCheck_xs _).2]; repeat' split
+    all_goals simp [Cur.prev_xs, Cur.last_xs]
+
+theorem stepFwd_xs (t : TI) : t.stepFwd.snap.xs = t.snap.xs ∧ t.stepFwd.ws.xs = t.ws.xs := by
+  unfold TI.stepFwd
+  split
+  · have := posMin_xs t.fuel { t with snap := t.snap.next, ws := t.ws.next, eq := false }
+    simpa [Cur.next_xs] using this
+  · split
+    · have := posMin_xs t.fuel { t with snap := t.snap.next }; simpa [Cur.next_xs] using this
+    · have := posMin_xs t.fuel { t with ws := t.ws.next }; simpa [Cur.next_xs] using this
+    · exact ⟨rfl, rfl⟩
+
+theorem stepBwd_xs (t : TI) : t.stepBwd.snap.xs = t.snap.xs ∧ t.stepBwd.ws.xs = t.ws.xs := by
+  unfold TI.stepBwd
+  split
+  · have := posMax_xs t.fuel { t with snap := t.snap.prev, ws := t.ws.prev, eq := false }
+    simpa [Cur.prev_xs] using this
+  · split
+    · have := posMax_xs t.fuel { t with snap := t.snap.prev }; simpa [Cur.prev_xs] using this
+    · have := posMax_xs t.fuel { t with ws := t.ws.prev }; simpa [Cur.prev_xs] using this
+    · exact ⟨rfl, rfl⟩
+
+theorem apply_xs (t : TI) (op : COp) : (t.apply op).snap.xs = t.snap.xs ∧ (t.apply op).ws.xs = t.ws.xs := by
+  cases op with
+  | seekFirst => exact posMin_xs _ _
+  | seekLast => exact posMax_xs _ _
+  | seek k => exact posMin_xs _ _
+  | next =>
+    simp only [TI.apply, TI.next]
+    split
+    · exact ⟨(stepFwd_xs _).1.trans (turnFwd_xs t).1, (stepFwd_xs _).2.trans (turnFwd_xs t).2⟩
+    · exact stepFwd_xs t
+  | prev =>
+    simp only [TI.apply, TI.prev]
+    split
+    · exact ⟨(stepBwd_xs _).1.trans (turnBwd_xs t).1, (stepBwd_xs _).2.trans (turnBwd_xs t).2⟩
+    · exact stepBwd_xs t
+
+/-- `seek_first` from any cursor state -/
+theorem C09_seek_first_any (S : List Nat) (W : List (Nat × Bool)) (hS : SortedBy id S) (hW : SortedBy Prod.fst W)
+    (t : TI) (hts : t.snap.xs = S) (htw : t.ws.xs = W) :
+    (∃ K, FwdState S W t.seekFirst K ∧ LeastGE S W 0 (some K)) ∨
+    (t.seekFirst.cur = .none ∧ LeastGE S W 0 none) := by
+  unfold TI.seekFirst
+  have hw : FSplit Prod.fst W 0 (Cur.first t.ws).pos := by
+    have := BSplit_none_first (key := Prod.fst) (xs := W) (Y := 0) t.ws.pos (fun a _ => Nat.zero_le _)
+    rw [← htw] at this ⊢
+    exact this
+  apply posMin_spec S W hS hW
+  · exact hts
+  · exact htw
+  · rfl
+  · have := BSplit_none_first (key := id) (xs := S) (Y := 0) t.snap.pos (fun a _ => Nat.zero_le _)
+    rw [← hts] at this ⊢
+    exact this
+  · exact hw
+  · have := wsRemaining_le (Cur.first t.ws) hw
+    simp only [TI.fuel, htw]
+    exact Nat.lt_succ_of_le this
+
+def Tracked (S : List Nat) (W : List (Nat × Bool)) (t : TI) : Option (Option Nat) → Prop
+  | some (some K) => Positioned S W t K
+  | _ => True
+
+theorem key_of_cur_none (t : TI) (h : t.cur = .none) : t.key = none := by simp [TI.key, h]
+
+/-- **C09 (every call sequence).** Whatever sequence of `seek_first` / `seek_last` / `seek(k)` /
+`next` / `prev` is issued against a cursor over sorted snapshot keys `S` and sorted write set `W`,
+every reported key is the one the specification names: least live key `≥` the target for the seeks,
+greatest live key for `seek_last`, least live key above / greatest live key below the current key for
+`next` / `prev` (in any mixture of directions), and exhaustion exactly when no such key exists. -/
+theorem C09_cursor_trace (S : List Nat) (W : List (Nat × Bool)) (hS : SortedBy id S) (hW : SortedBy Prod.fst W) :
+    ∀ (ops : List COp) (t : TI) (st : Option (Option Nat)),
+      t.snap.xs = S → t.ws.xs = W → Tracked S W t st → TraceOK S W st ops (t.runKeys ops) := by
+  intro ops
+  induction ops with
+  | nil => intro t st _ _ _; exact True.intro
+  | cons op ops ih =>
+    intro t st hts htw htr
+    have hx := apply_xs t op
+    have hts' : (t.apply op).snap.xs = S := hx.1.trans hts
+    have htw' : (t.apply op).ws.xs = W := hx.2.trans htw
+    simp only [TI.runKeys, TraceOK]
+    -- a positioned-or-exhausted outcome yields both the step and the tracking for the rest
+    have fin : ∀ (r : Option Nat), (t.apply op).key = r → StepOK S W st op r →
+        Tracked S W (t.apply op) (nextSt st op r) →
+        StepOK S W st op (t.apply op).key ∧ TraceOK S W (nextSt st op (t.apply op).key) ops ((t.apply op).runKeys ops) := by
+      intro r hr h1 h2
+      rw [hr]
+      exact ⟨h1, ih _ _ hts' htw' h2⟩
+    cases op with
+    | seekFirst =>
+      rcases C09_seek_first_any S W hS hW t hts htw with ⟨K, hK, hL⟩ | ⟨hc, hL⟩
+      · exact fin (some K) hK.key hL (Or.inl hK)
+      · exact fin none (key_of_cur_none _ hc) hL True.intro
+    | seek k =>
+      rcases C09_seek S W hS hW t hts htw k with ⟨K, hK, hL⟩ | ⟨hc, hL⟩
+      · exact fin (some K) hK.key hL (Or.inl hK)
+      · exact fin none (key_of_cur_none _ hc) hL True.intro
+    | seekLast =>
+      have hYs : ∀ k ∈ S, k < bound S + bound (W.map Prod.fst) + 1 := by
+        intro k hk; have := le_bound hk; omega
+      have hYw : ∀ e ∈ W, e.1 < bound S + bound (W.map Prod.fst) + 1 := by
+        intro e he
+        have := le_bound (List.mem_map_of_mem (f := Prod.fst) he); omega
+      rcases C09_seek_last S W hS hW t hts htw _ hYs hYw with ⟨K, hK, hL⟩ | ⟨hc, hL⟩
+      · exact fin (some K) hK.key (GreatestLT_top hYs hYw hL) (Or.inr hK)
+      · exact fin none (key_of_cur_none _ hc) (GreatestLT_top hYs hYw hL) True.intro
+    | next =>
+      match st, htr with
+      | some (some K), htr =>
+        rcases C09_next S W hS hW t K htr with ⟨K', hK, hL⟩ | ⟨hc, hL⟩
+        · exact fin (some K') hK.key hL (Or.inl hK)
+        · exact fin none (key_of_cur_none _ hc) hL True.intro
+      | some none, _ => exact ⟨True.intro, ih _ _ hts' htw' True.intro⟩
+      | none, _ => exact ⟨True.intro, ih _ _ hts' htw' True.intro⟩
+    | prev =>
+      match st, htr with
+      | some (some K), htr =>
+        rcases C09_prev S W hS hW t K htr with ⟨K', hK, hL⟩ | ⟨hc, hL⟩
+        · exact fin (some K') hK.key hL (Or.inr hK)
+        · exact fin none (key_of_cur_none _ hc) hL True.intro
+      | some none, _ => exact ⟨True.intro, ih _ _ hts' htw' True.intro⟩
+      | none, _ => exact ⟨True.intro, ih _ _ hts' htw' True.intro⟩
+
+/-- the statement for a fresh cursor -/
+theorem C09_cursor_trace_fresh (S : List Nat) (W : List (Nat × Bool)) (hS : SortedBy id S) (hW : SortedBy Prod.fst W)
+    (ops : List COp) : TraceOK S W none ops ((TI.start S W).runKeys ops) :=
+  C09_cursor_trace S W hS hW ops _ none rfl rfl True.intro
+
+/-- non-vacuity: a mixed-direction walk over snapshot {1,3,5}, write set {2, 3†, 6} -/
+example : (TI.start [1, 3, 5] [(2, false), (3, true), (6, false)]).runKeys
+    [.seekLast, .prev, .prev, .next, .next, .next, .seek 3, .prev, .prev, .prev] =
+    [some 6, some 5, some 2, some 5, some 6, none, some 5, some 2, some 1, none] := by decide
